@@ -315,7 +315,20 @@ def collect(repo):
             if fp4_ok(*need) and reaches(n, "_start_", st) and ends_ok:
                 stage4.append((Chars(n), Chars(kind)))
                 break
+    import html.entities as _he
+    import hashlib as _hl
+    # ---- stage 6: the reference callbacks of the loose back end and its decode_entities are modelled by hand (crefText, erefText, looseDecode): source fingerprints
+    FP6 = {"handle_charref": "9a372301d45c6b15c488c008832be669", "handle_entityref": "140f5cbfc08259ff00177d41636209c2", "handle_data": "ced837949e4dca376d57cceb219cc20b"}
+    def _h(fn):
+        return _hl.sha256(body_of(fn).encode()).hexdigest()[:32]
+    stage6_changed = [n for n, h in FP6.items() if not hasattr(M, n) or _h(getattr(M, n)) != h]
+    if not hasattr(loose, "decode_entities") or _h(loose.decode_entities) != "1fb35454f2304cab8d526cc7b22a0318":
+        stage6_changed.append("LooseFeedParser.decode_entities")
+    if not hasattr(strict, "decode_entities") or _h(strict.decode_entities) != "b62e446b968274ada6f6d8dbfed8a82d":
+        stage6_changed.append("StrictFeedParser.decode_entities")
     T["Mixin"] = [
+        ("stage6ChangedL", "List String", sorted(stage6_changed)),
+        ("name2codepointL", "List (List Char × Nat)", [(Chars(k), v) for k, v in sorted(_he.name2codepoint.items())]),
         ("stage4L", "List (List Char × List Char)", stage4),
         ("handModelledL", "List (List Char × List Char)", hand_modelled),
         ("dateElementsL", "List (List Char × List Char × List Char)", date_handlers),
